@@ -35,9 +35,7 @@ void *st_os_ret_l(void *os, uint64_t x) { return os; }
 int n_timer_sched, n_timer_clear; uint32_t timer_sched_ms;
 uint8_t st_timer_schedule(void *timer, void *ev, uint32_t ms) { n_timer_sched++; timer_sched_ms = ms; return 1; }
 uint64_t st_timer_clear(void *timer) { n_timer_clear++; return 0; }
-/* exception store: all fix8 exception classes are single-inheritance extensions of f8Exception by at most 16 bytes */
-static struct { struct S_class_2eFIX8_3a_3af8Exception base; uint64_t tail[4]; } vf_exc_store;
-void *st_exc_alloc(uint64_t n) { __CPROVER_assert(n <= sizeof vf_exc_store, "exception store large enough"); return &vf_exc_store; }
+/* exception objects are typed heap objects (ir2c: __cxa_allocate_exception(sizeof T) -> malloc(sizeof(struct T))) */
 void st_exc_throw(void *obj, void *tinfo, void *dtor)
 {
   if (vf_ti_match(tinfo, &g__ZTIN4FIX811f8ExceptionE))
